@@ -42,3 +42,46 @@ def untraced():
     from crosshair.tracers import NoTracing, is_tracing
 
     return NoTracing() if is_tracing() else _Null()
+
+
+_SRV = {}
+
+
+class NativeError(Exception):
+    pass
+
+
+def native_call(module, func, *args):
+    """Run module.func(*args) in the tracer-free helper process (see vt/nativesrv.py). All args must
+    be concrete, JSON-serialisable values. During native replay the call is made directly."""
+    import importlib
+    import json as _json
+
+    if NATIVE:
+        return getattr(importlib.import_module(module), func)(*args)
+    from crosshair.tracers import NoTracing
+
+    with NoTracing():
+        import os
+        import subprocess
+        import sys
+
+        srv = _SRV.get(module)
+        if srv is None or srv.poll() is not None:
+            env = dict(os.environ)
+            srv = subprocess.Popen([sys.executable, "-m", "vt.nativesrv", module, _json.dumps(SEL)],
+                                   stdin=subprocess.PIPE, stdout=subprocess.PIPE, text=True, env=env)
+            ready = srv.stdout.readline()
+            if ready.strip() != "READY":
+                raise NativeError("native helper did not start: " + ready)
+            _SRV[module] = srv
+        srv.stdin.write(_json.dumps([func, list(args)]) + "\n")
+        srv.stdin.flush()
+        line = srv.stdout.readline()
+        if not line:
+            raise NativeError("native helper died")
+        res = _json.loads(line)
+        NOTES.extend(res.get("notes", []))
+        if "exc" in res:
+            raise NativeError(res["exc"] + "\n" + res.get("tb", ""))
+        return res["ret"]
